@@ -330,3 +330,68 @@ impl VerifTable {
         TableCursor::new(Arc::clone(&self.table))
     }
 }
+
+/// A `MergingIterator` over memtable-backed children, with tuple-typed keys.
+pub struct MergeCursor {
+    iter: crate::versioning::file_iterators::MergingIterator,
+}
+
+impl MergeCursor {
+    /// Every child is loaded into its own skip-list memtable (hence sorted by internal key).
+    pub fn new(children: &[Vec<Entry>]) -> Result<Self, String> {
+        use crate::memtable::{MemTable, SkipListMemTable};
+        let mut iterators: Vec<
+            Box<
+                dyn crate::RainDbIterator<
+                    Key = crate::key::InternalKey,
+                    Error = crate::errors::RainDBError,
+                >,
+            >,
+        > = vec![];
+        for child in children {
+            let memtable = SkipListMemTable::new();
+            for (user_key, seq, op, value) in child {
+                let key = to_internal_key(&(user_key.clone(), *seq, *op))?;
+                memtable.insert(key, value.clone());
+            }
+            iterators.push(memtable.iter());
+        }
+        Ok(MergeCursor {
+            iter: crate::versioning::file_iterators::MergingIterator::new(iterators),
+        })
+    }
+    pub fn seek(&mut self, user_key: &[u8], sequence: u64) -> Result<(), String> {
+        use crate::RainDbIterator;
+        let key = crate::key::InternalKey::new_for_seeking(user_key.to_vec(), sequence);
+        self.iter.seek(&key).map_err(|e| e.to_string())
+    }
+    pub fn seek_to_first(&mut self) -> Result<(), String> {
+        use crate::RainDbIterator;
+        self.iter.seek_to_first().map_err(|e| e.to_string())
+    }
+    pub fn seek_to_last(&mut self) -> Result<(), String> {
+        use crate::RainDbIterator;
+        self.iter.seek_to_last().map_err(|e| e.to_string())
+    }
+    /// Must only be called on a valid cursor (as `DatabaseIterator` does).
+    pub fn next(&mut self) {
+        use crate::RainDbIterator;
+        self.iter.next();
+    }
+    /// Must only be called on a valid cursor (as `DatabaseIterator` does).
+    pub fn prev(&mut self) {
+        use crate::RainDbIterator;
+        self.iter.prev();
+    }
+    pub fn is_valid(&self) -> bool {
+        use crate::RainDbIterator;
+        self.iter.is_valid()
+    }
+    pub fn current(&self) -> Option<Entry> {
+        use crate::RainDbIterator;
+        self.iter.current().map(|(key, value)| {
+            let (user_key, seq, op) = ikey_tuple(key);
+            (user_key, seq, op, value.clone())
+        })
+    }
+}
